@@ -220,7 +220,7 @@ def build(src):
     # byte-extract at a symbolic offset: 10^8 clauses.)
     it_rules = [Rule("D3.iterator-deref", r"\*it\b", "IT_TOK"), Rule("D3.iterator-arrow", r"\bit->", "IT_TOK->"),
                 Rule("D3.iterator-next", r"\bit \+ 1\b", "(*it_ref) + 1"), Rule("D3.iterator-inc", r"\+\+it\b", "++(*it_ref)"),
-                Rule("D3.iterator-end", r"\bnext != end\b", "next != args->n"), Rule("D3.iterator-deref", r"\*next\b", "NEXT_TOK"),
+                Rule("D3.iterator-end", r"\bnext (!=|==) end\b", r"next \1 args->n"), Rule("D3.iterator-end", r"\bend (!=|==) next\b", r"args->n \1 next"), Rule("D3.iterator-deref", r"\*next\b", "NEXT_TOK"),
                 Rule("D3.iterator-arrow", r"\bnext->", "NEXT_TOK->")]
     u.shared_decls += "#define IT_TOK (&args->a[*it_ref])\n#define NEXT_TOK (&args->a[next])\n"
     tok_calls = [Rule("D6.token-call", r"\bIT_TOK->(is_short|has_value|is_value|is_double_dash|is_named)\(\)", r"ui_\1(IT_TOK)"),
